@@ -200,4 +200,14 @@ _Bool spec_all_differ_but(const struct Position *p, int but)
             out.append(Job(nm + '/' + case, TUS7, [fn], h, 'h_h', contracts={fn: cc}, loopc=lc, enforce=fn, loop_contracts=True, timeout=2400, expect=['loop_invariant_step'], backend='cadical',
                            replay=REPLAY_HIST, route='loop contract (unbounded): the scan of the key history',
                            note=nm + ': answers true when the ghost-witnessed earlier occurrences exist, false when all earlier entries (but at most one) differ - all earlier positions are scanned; case: ' + case, **kw))
+    # dependency obligations, THOROUGH tier only: the leaf generators of C01 (the quick leaf groups of C01's own check, re-run here under the
+    # prefix dep_C01/), because is_checkmate / is_stalemate / is_move_legal are decided relative to the generate_moves contract: a change
+    # inside a generator that makes a mate/stalemate answer wrong (seed C07b) fails its leaf obligation in this command too, not only in C01's
+    if tier == 'thorough':
+        from props import C01 as _C01
+        for j in _C01.jobs('quick', seed):
+            if j.name.startswith('leaf/') and j.tier == 'quick':
+                j.name = 'dep_C01/' + j.name
+                j.tier = 'thorough'
+                out.append(j)
     return out
